@@ -266,7 +266,7 @@ def check_C19(ctx):
     fams = ["calls", "globals"] if q else FAMILIES
     model_check_many(ctx, [("MC_Walrus", "MC_Walrus_%s" % f.capitalize(), "design-maps-" + f) for f in (["globals", "memories"] if q else FAMILIES)])
     trace = os.path.join(ctx.work, "maps.ndjson")
-    wv(["trace-maps", "inputs=fixtures,file:%s,%s,gen:%d,gen:%d:big" % (DODRIO, fam_inputs(ctx, fams), n, n // 20), "seed=%d" % ctx.seed, "out=" + trace])
+    wv(["trace-maps", "inputs=fixtures,file:%s,%s,dupimp:%d,gen:%d,gen:%d:big" % (DODRIO, fam_inputs(ctx, fams), 8 if q else 60, n, n // 20), "seed=%d" % ctx.seed, "out=" + trace])
     r, cases = judge_trace(ctx, "Trace_Maps", trace, slim=lambda c: {"id": c["id"], "source": c["source"]})
     ok = [c for c in cases if c.get("outcome") == "ok"]
     for c in ok[:1] + ok[-2:]:
@@ -847,7 +847,7 @@ def exec_oracle(ctx, gc, n, shards, extra=""):
     for f in os.listdir(ctx.work):
         if f.startswith("exec%d.ndjson" % gc):
             os.remove(os.path.join(ctx.work, f))
-    out = wv(["trace-exec", "inputs=gen:%d:exec,exectab:%d,fixtures%s" % (n, max(40, n // 10), extra), "gc=%d" % gc, "seed=%d" % ctx.seed, "out=" + trace, "shards=%d" % shards])
+    out = wv(["trace-exec", "inputs=gen:%d:exec,exectab:%d,execbulk:%d,fixtures%s" % (n, max(40, n // 10), max(30, n // 15), extra), "gc=%d" % gc, "seed=%d" % ctx.seed, "out=" + trace, "shards=%d" % shards])
     ctx.notes.setdefault("harness", []).append(out.strip().splitlines()[-1])
     allc = []
     from concurrent.futures import ThreadPoolExecutor
